@@ -9,8 +9,9 @@
    `nz v` stands for `abs(val) > atol`; on exact (Gaussian-)integer data with the
    default atol=1e-12 that is `val != 0`.  Hand-written; tied to the
    implementation by correspondence (harness/c04.py). *)
-From Coq Require Import ZArith Arith List Bool PeanoNat.
+From Coq Require Import ZArith QArith Arith List Bool PeanoNat.
 Import ListNotations.
+Close Scope Q_scope.
 
 Section Finders.
   Variable A : Type.
@@ -107,3 +108,11 @@ Definition opt_pair_eqb (a b : option (nat * nat)) : bool :=
   | Some (x, y), Some (u, v) => (x =? u) && (y =? v)
   | _, _ => false
   end.
+
+(* explicit tolerance: `abs(val) > atol` on exact rational (dyadic = float) data, complex entries as (re, im):
+   |x| > atol  <->  re^2 + im^2 > atol^2   (atol >= 0) *)
+Definition nzQ (atol : Q) (x : Q * Q) : bool :=
+  negb (Qle_bool (fst x * fst x + snd x * snd x)%Q (atol * atol)%Q).
+Definition find_diag_axes_Q (atol : Q) := find_diag_axes (Q * Q) (nzQ atol) (0, 0)%Q.
+Definition find_antidiag_axes_Q (atol : Q) := find_antidiag_axes (Q * Q) (nzQ atol) (0, 0)%Q.
+Definition find_columns_Q (atol : Q) := find_columns (Q * Q) (nzQ atol) (0, 0)%Q.
